@@ -134,6 +134,13 @@ inductive Err
   | valueError | typeError | indexError | nameError | unmodelled
 deriving DecidableEq, Repr, Inhabited
 
+instance {ε α : Type} [DecidableEq ε] [DecidableEq α] : DecidableEq (Except ε α) := fun a b =>
+  match a, b with
+  | .ok x, .ok y => if h : x = y then isTrue (by rw [h]) else isFalse (fun e => h (by cases e; rfl))
+  | .error x, .error y => if h : x = y then isTrue (by rw [h]) else isFalse (fun e => h (by cases e; rfl))
+  | .ok _, .error _ => isFalse (fun e => by cases e)
+  | .error _, .ok _ => isFalse (fun e => by cases e)
+
 /-- `"Measure" in name` -/
 def isPrefixL : List Char → List Char → Bool
   | [], _ => true
